@@ -128,13 +128,17 @@ def find_fn(src, fn_name, impl_re=None, nth=0, mod=None):
         if not mm: raise Unsupported("module not found: " + mod)
         lo = mm.end() - 1; hi = match_brace(s, lo)
     if impl_re:
-        found = None
+        found = None; first = None
         for m in re.finditer(r'(?m)^\s*impl\b[^{;]*\{', s[:hi]):
             if m.start() < lo: continue
             if re.search(impl_re, m.group(0)):
-                found = m; break
-        if not found: raise Unsupported("impl block not found: " + impl_re)
-        lo = found.end() - 1; hi = match_brace(s, lo)
+                # several blocks may carry the same header (`impl ParseError {` twice): take the first that has the function
+                b0 = m.end() - 1; b1 = match_brace(s, b0)
+                if first is None: first = (b0, b1)
+                if re.search(r'\bfn\s+' + re.escape(fn_name) + r'\b', s[b0:b1]):
+                    found = (b0, b1); break
+        if not first: raise Unsupported("impl block not found: " + impl_re)
+        lo, hi = found or first
     ms = [m for m in re.finditer(r'\bfn\s+' + re.escape(fn_name) + r'\b', s[lo:hi])]
     if len(ms) <= nth: raise Unsupported("fn not found: " + fn_name)
     st = lo + ms[nth].start()
